@@ -152,6 +152,7 @@ def main(argv=None):
     outdir = os.path.join(HERE, "out", "work", "%s-%d" % (pid, os.getpid()))
     os.makedirs(outdir, exist_ok=True)
     procs = []
+    harness_error = None
     env = dict(os.environ)
     env.setdefault("PYTHONHASHSEED", "0")
     env["PYTHONPATH"] = HERE + os.pathsep + env.get("PYTHONPATH", "")
@@ -164,12 +165,17 @@ def main(argv=None):
         log = open(os.path.join(outdir, "log%d.txt" % i), "w")
         procs.append((subprocess.Popen([PYTHON, os.path.join(HERE, "check"), pid, "--worker", sp],
                                        stdout=log, stderr=subprocess.STDOUT, env=env, cwd=HERE), spec, log))
-    harness_error = None
     merged = stats.to_json()
     merged_nt = set(merged["nontrivial"])
     found = {}
+    hard = time_cap * 4 + 300
     for p, spec, log in procs:
-        p.wait()
+        try:
+            p.wait(timeout=max(1, hard - (time.time() - t0)))
+        except subprocess.TimeoutExpired:
+            p.kill()
+            p.wait()
+            harness_error = "worker %d exceeded the hard wall-clock limit (%ds): inconclusive, not a violation" % (spec["idx"], hard)
         log.close()
         if not os.path.exists(spec["out"]):
             harness_error = "worker %d died (rc=%s): %s" % (
